@@ -498,6 +498,82 @@ def stream_views_layer(ck, n_cases):
                     break
 
 
+def kept_view_and_xyz_layer(ck, n_cases):
+    """(1) a coordinate view kept by the caller presents X*scale+offset of the integers stored NOW, also after they were changed by another route;
+    (2) several coordinates assigned at once (las.xyz = v, las[["x", "y", "z"]] = v, record[("x", "y")] = v): column j goes to coordinate j, also when
+    the matrix is square"""
+    import laspy
+    for ci in range(n_cases):
+        fmt = [0, 3, 6][ci % 3]
+        sc = [ck.rng.choice([0.5, 0.25, 2.0]) for _ in range(3)]
+        of = [ck.rng.choice([0.0, 16.0, -8.0, 1024.0]) for _ in range(3)]
+        hdr = laspy.LasHeader(point_format=fmt, version="1.4" if fmt >= 6 else "1.2")
+        hdr.scales, hdr.offsets = np.array(sc), np.array(of)
+        las = laspy.LasData(hdr)
+        if ci % 2 == 0:
+            n = ck.rng.choice([2, 5])
+            las.points = laspy.ScaleAwarePointRecord.zeros(n, header=hdr)
+            for d in "XYZ":
+                las.points.array[d] = np.array([ck.rng.randrange(-10**5, 10**5) for _ in range(n)], dtype="i4")
+            ax = ck.rng.randrange(3)
+            d = "xyz"[ax]
+            kept = getattr(las, d)
+            first = np.array(kept).tolist()
+            new_int = np.array([ck.rng.randrange(-10**5, 10**5) for _ in range(n)], dtype="i4")
+            route = ["raw_array", "upper_case_attr", "scaled_assign", "second_view", "record_item"][(ci // 2) % 5]
+            if route == "raw_array":
+                las.points.array[d.upper()][:] = new_int
+            elif route == "upper_case_attr":
+                setattr(las, d.upper(), new_int)
+            elif route == "scaled_assign":
+                setattr(las, d, new_int.astype(np.float64) * sc[ax] + of[ax])
+            elif route == "second_view":
+                getattr(las, d)[:] = new_int.astype(np.float64) * sc[ax] + of[ax]
+            else:
+                las.points[d.upper()] = new_int
+            want = (las.points.array[d.upper()].astype(np.int64) * sc[ax] + of[ax]).tolist()
+            inp = {"kind": "kept_scaled_view", "fmt": fmt, "axis": d, "route": route, "scales": sc, "offsets": of, "first_look": first, "stored_now": las.points.array[d.upper()].tolist()}
+            ck.case(("kept_scaled_view", fmt, d, route, tuple(sc), tuple(of), tuple(first), tuple(new_int.tolist())), nontrivial=True)
+            ck.count("kept_scaled_view:" + route)
+            for label, got in (("np.array(view)", lambda: np.array(kept).tolist()), ("view[0]", lambda: [float(kept[0])]), ("view.max()", lambda: [float(kept.max())])):
+                try:
+                    g = got()
+                except Exception as e:
+                    ck.fail(f"a kept view of {d} after the integers were changed ({route}): {label} raised {type(e).__name__}: {e}", inp)
+                    break
+                w = want if label == "np.array(view)" else [want[0]] if label == "view[0]" else [max(want)]
+                if g != w:
+                    ck.fail(f"a view of las.{d} kept by the caller, after the stored integers were changed by another route ({route}): {label} presents {g}, "
+                            f"X*scale+offset of the integers stored now is {w}", inp)
+                    break
+        else:
+            how = ["las.xyz", "las[names]", "record[names]", "las.xyz"][(ci // 2) % 4]
+            k = 2 if how == "record[names]" and ci % 4 == 1 else 3
+            n = [k, k, 5, 1][(ci // 8) % 4]               # square matrices first
+            las.points = laspy.ScaleAwarePointRecord.zeros(n, header=hdr)
+            ints = [[ck.rng.randrange(-10**5, 10**5) for _ in range(k)] for _ in range(n)]
+            if n == k and all(ints[i][j] == ints[j][i] for i in range(k) for j in range(k)):
+                ints[0][k - 1] += 1
+            vals = np.array([[ints[i][j] * sc[j] + of[j] for j in range(k)] for i in range(n)], dtype=np.float64)
+            names = ["x", "y", "z"][:k]
+            inp = {"kind": "coordinates_at_once", "fmt": fmt, "how": how, "n": n, "names": names, "scales": sc, "offsets": of, "values": vals.tolist()}
+            ck.case(("coords_at_once", fmt, how, n, k, tuple(sc), tuple(of), str(ints)), nontrivial=True)
+            ck.count("coordinates_at_once:" + ("square" if n == k else "tall"))
+            try:
+                if how == "las.xyz" and k == 3:
+                    las.xyz = vals
+                elif how == "record[names]":
+                    las.points[tuple(names)] = vals
+                else:
+                    las[names] = vals
+            except Exception as e:
+                ck.fail(f"{how} = {n}x{k} matrix raised {type(e).__name__}: {e}", inp)
+                continue
+            got = [[int(las.points.array[nm.upper()][i]) for nm in names] for i in range(n)]
+            if got != ints:
+                ck.fail(f"{how} = v with v of shape ({n}, {k}) (one column per coordinate): stored integers {got}, the nearest representable integers of the columns are {ints}", inp)
+
+
 def run(ck):
     logging.getLogger("laspy").setLevel(logging.CRITICAL)
     warnings.simplefilter("ignore")
@@ -663,6 +739,7 @@ def run(ck):
     ck.count("skipped_near_tie", skipped)
     stream_layer(ck, 60 if q else 1500)
     stream_views_layer(ck, 30 if q else 600)
+    kept_view_and_xyz_layer(ck, 40 if q else 800)
     integer_scaling_probe(ck)
     integer_offsets_assign_probe(ck)
     value_dtype_layer(ck, 80 if q else 2000)
